@@ -334,6 +334,9 @@ static int settle(void)
 
 	if (!(cfg_flags & CDS_LFHT_AUTO_RESIZE))
 		return 1;
+	if (vrt_param("nosettle", 0))
+		return 1;	/* lazily queued resizes stay pending: the worker only runs if this thread blocks; it is parked in the
+				 * same place in every such state (the number of queued, idempotent work items is not part of the key) */
 	for (i = 0; i < 60; i++) {
 		int busy;
 
@@ -353,7 +356,7 @@ static int settle(void)
 	return 0;
 }
 
-enum { S_ADD, S_ADDU, S_ADDR, S_REPL1, S_REPL2, S_DEL1, S_DEL2, S_REPLBAD, S_NKINDS };
+enum { S_ADD, S_ADDU, S_ADDR, S_REPL1, S_REPL2, S_DEL1, S_DEL2, S_REPLBAD, S_REPL_STALE_ADD, S_REPL_STALE_DEL, S_NKINDS };
 static const unsigned long rs_sizes_small[] = { 0, 1, 2, 3, 4, 5, 8, 16, ~0UL, 1UL << 63, 6, 7 };
 static const unsigned long rs_sizes_big[] = { 512, 256, 1024, 128, 0, 2048, 300, 64 };
 
@@ -385,7 +388,7 @@ static void run_seq(void)
 
 		seqpos += snprintf(seqlog + seqpos, sizeof(seqlog) - (size_t)seqpos > 0 ? sizeof(seqlog) - (size_t)seqpos : 0, " %s%d",
 				   c < S_NKINDS * nkeys ? (const char *[]){ "add", "add_unique", "add_replace", "replace1st", "replace2nd", "del1st",
-				   "del2nd", "replace_badkey" }[c / nkeys] : c < S_NKINDS * nkeys + nrs ? "resize#" : "destroy",
+				   "del2nd", "replace_badkey", "lookup;add;replace(stale_iter)", "lookup;del_successor;replace(stale_iter)" }[c / nkeys] : c < S_NKINDS * nkeys + nrs ? "resize#" : "destroy",
 				   c < S_NKINDS * nkeys ? c % nkeys : c - S_NKINDS * nkeys);
 		if (seqpos > 380)
 			seqpos = 380;
@@ -467,6 +470,43 @@ static void run_seq(void)
 					RDU();
 					retire(old);
 				}
+				break;
+			}
+			case S_REPL_STALE_ADD: case S_REPL_STALE_DEL: {
+				/* the iterator is kept across another update in the same read-side section (a stale iterator):
+				 * replace must still either fail or swap exactly the looked-up node */
+				int old, newid, extra = 0, succ = 0, i2;
+				struct hnode *nn;
+
+				RDL();
+				old = find_nth(key, 1, &it);
+				if (!old) {
+					RDU();
+					break;
+				}
+				if (kind == S_REPL_STALE_ADD) {
+					extra = next_id++;
+					cds_lfht_add(ht, hash_of(key), &mknode(extra, key)->n);	/* sorts right behind the equal-hash run */
+					model_add(extra);
+				} else {
+					for (i2 = 0; i2 + 1 < norder; i2++)
+						if (order_seq[i2] == old)
+							succ = order_seq[i2 + 1];
+					if (succ) {
+						VRT_CHECK(cds_lfht_del(ht, &nodes[succ]->n) == 0, "%s: del of the successor %d failed", what, succ);
+						model_del(succ);
+					}
+				}
+				newid = next_id++;
+				nn = mknode(newid, key);
+				r = cds_lfht_replace(ht, &it, hash_of(key), match, &key, &nn->n);
+				RDU();
+				VRT_CHECK(r == 0, "%s: replace of stored node %d through an iterator taken before another update returned %d", what, old, r);
+				model_del(old);
+				model_add(newid);
+				retire(old);
+				if (succ)
+					retire(succ);
 				break;
 			}
 			case S_DEL1: case S_DEL2: {
